@@ -1456,7 +1456,8 @@ class Store:
         if here is None:
             here = self.path_for()
         deletions = []
-        path = (key,)
+        # a deletion names a child by its key or by a path (tuple)
+        path = convert_path(key)
         self._delete_path(path)
         deletions.append(tuple(here + path))
 
